@@ -39,6 +39,9 @@ type walker struct {
 	born  bool // IsMadeFromCoin value of the path being extracted
 	steps []string
 	depth int
+	// error propagation: does the statement being walked check the error of the call it makes and hand it on?
+	curProp bool
+	stack   []bool // … and the same for every helper call site we are inlined through
 }
 
 func idents(e ast.Node) []string {
@@ -138,7 +141,13 @@ func bornTest(cond ast.Expr) (isTest, pos bool) {
 func (w *walker) call(en *env, c *ast.CallExpr, lhs []string) {
 	ch := chain(c.Fun)
 	a := c.Args
-	add := func(f string, xs ...string) { w.steps = append(w.steps, f+" "+strings.Join(xs, " ")) }
+	add := func(f string, xs ...string) {
+		ok := w.curProp
+		for _, b := range w.stack {
+			ok = ok && b
+		}
+		w.steps = append(w.steps, "("+f+" "+strings.Join(xs, " ")+", "+CoqBool(ok)+")")
+	}
 	switch {
 	case hasSuffix(ch, "ERC20", "()", "Transfer") && len(a) >= 4:
 		add("LErcTransfer", en.partyOf(a[1]), en.partyOf(a[2]), en.amtOf(a[3]))
@@ -204,7 +213,11 @@ func (w *walker) call(en *env, c *ast.CallExpr, lhs []string) {
 				}
 			}
 			w.depth++
+			w.stack = append(w.stack, w.curProp)
+			saved := w.curProp
 			ret := w.block(sub, fd.Body)
+			w.curProp = saved
+			w.stack = w.stack[:len(w.stack)-1]
 			w.depth--
 			if len(lhs) > 0 && lhs[0] != "_" && ret != "" && ret != "AUnknown" {
 				en.amt[lhs[0]] = ret
@@ -343,7 +356,8 @@ func compositeOf(e ast.Expr) *ast.CompositeLit {
 
 // block walks statements in order; returns the amount class of the first result of a successful return ("" if none).
 func (w *walker) block(en *env, b *ast.BlockStmt) (ret string) {
-	for _, st := range b.List {
+	for i, st := range b.List {
+		w.curProp = errPropagated(b.List, i)
 		switch s := st.(type) {
 		case *ast.AssignStmt:
 			w.assign(en, s.Lhs, s.Rhs)
@@ -397,6 +411,127 @@ func (w *walker) block(en *env, b *ast.BlockStmt) (ret string) {
 		}
 	}
 	return ""
+}
+
+// ---------------------------------------------------------------- error propagation
+
+func sameVar(a, b *ast.Ident) bool {
+	if a == nil || b == nil {
+		return false
+	}
+	if a.Obj != nil && b.Obj != nil {
+		return a.Obj == b.Obj // distinguishes a variable from one that shadows it
+	}
+	return a.Name == b.Name
+}
+
+func lastIdent(es []ast.Expr) *ast.Ident {
+	if len(es) == 0 {
+		return nil
+	}
+	id, _ := es[len(es)-1].(*ast.Ident)
+	if id != nil && id.Name == "_" {
+		return nil
+	}
+	return id
+}
+
+// nilCheckOf: cond is `v != nil` for the given variable
+func nilCheckOf(cond ast.Expr, v *ast.Ident) bool {
+	be, ok := cond.(*ast.BinaryExpr)
+	if !ok || be.Op != token.NEQ {
+		return false
+	}
+	x, okx := be.X.(*ast.Ident)
+	y, oky := be.Y.(*ast.Ident)
+	return okx && oky && y.Name == "nil" && sameVar(x, v)
+}
+
+// returnsError: the block ends in a return whose last result is not the literal nil
+func returnsError(b *ast.BlockStmt) bool {
+	if b == nil || len(b.List) == 0 {
+		return false
+	}
+	r, ok := b.List[len(b.List)-1].(*ast.ReturnStmt)
+	if !ok {
+		return false
+	}
+	if len(r.Results) == 0 {
+		return true // naked return of named results: decided by the caller through handedOn
+	}
+	return Nospace(r.Results[len(r.Results)-1]) != "nil"
+}
+
+// handedOn: after position i, is variable v returned (as last result) before being overwritten?
+func handedOn(stmts []ast.Stmt, i int, v *ast.Ident) bool {
+	for j := i + 1; j < len(stmts); j++ {
+		switch s := stmts[j].(type) {
+		case *ast.ReturnStmt:
+			if len(s.Results) == 0 {
+				return true
+			}
+			id, _ := s.Results[len(s.Results)-1].(*ast.Ident)
+			return sameVar(id, v)
+		case *ast.IfStmt:
+			if nilCheckOf(s.Cond, v) && s.Init == nil {
+				if returnsError(s.Body) {
+					return true
+				}
+				continue
+			}
+			if s.Init != nil {
+				if as, ok := s.Init.(*ast.AssignStmt); ok && as.Tok == token.ASSIGN && sameVar(lastIdent(as.Lhs), v) {
+					return false
+				}
+			}
+		case *ast.AssignStmt:
+			if s.Tok == token.ASSIGN && sameVar(lastIdent(s.Lhs), v) {
+				return false // overwritten before anybody looked at it
+			}
+		}
+	}
+	return false
+}
+
+// errPropagated: statement i makes a call; is that call's error checked and propagated to the caller?
+// True for statements that make no error-returning call of interest in a form we recognise as unchecked.
+func errPropagated(stmts []ast.Stmt, i int) bool {
+	switch s := stmts[i].(type) {
+	case *ast.ExprStmt:
+		_, isCall := s.X.(*ast.CallExpr)
+		return !isCall // a bare call statement drops whatever it returns
+	case *ast.AssignStmt:
+		if len(s.Rhs) != 1 {
+			return true
+		}
+		if _, isCall := s.Rhs[0].(*ast.CallExpr); !isCall {
+			return true
+		}
+		v := lastIdent(s.Lhs)
+		if v == nil {
+			return false // error assigned to _ (or to a non-variable)
+		}
+		return handedOn(stmts, i, v)
+	case *ast.IfStmt:
+		as, ok := s.Init.(*ast.AssignStmt)
+		if !ok || len(as.Rhs) != 1 {
+			return true
+		}
+		if _, isCall := as.Rhs[0].(*ast.CallExpr); !isCall {
+			return true
+		}
+		v := lastIdent(as.Lhs)
+		if v == nil || !nilCheckOf(s.Cond, v) {
+			return false
+		}
+		if returnsError(s.Body) {
+			return true
+		}
+		// the body only rewrites the error: it must be THIS variable that is returned afterwards; with
+		// `if …, err := f(); err != nil { err = wrap(err) }; return err` the returned err is another variable
+		return handedOn(stmts, i, v)
+	}
+	return true
 }
 
 func seedParams(en *env, fd *ast.FuncDecl) {
@@ -843,14 +978,16 @@ func main() {
 	fmt.Println("Local Open Scope string_scope.")
 	fmt.Println()
 	fmt.Println("(** ledger operations of each bridge path of the current tree, in execution order *)")
-	fmt.Println("Definition current_paths : paths := {|")
-	fmt.Printf("  p_send_to_bank_coin  := %s;\n", path(pf, "sendToBank", true))
-	fmt.Printf("  p_send_to_bank_erc20 := %s;\n", path(pf, "sendToBank", false))
-	fmt.Printf("  p_send_to_evm_coin   := %s;\n", path(pf, "sendToEvm", true))
-	fmt.Printf("  p_send_to_evm_erc20  := %s;\n", path(pf, "sendToEvm", false))
-	fmt.Printf("  p_convert_coin       := %s;\n", path(kf, "convertCoinToEvmBornCoin", true))
-	fmt.Printf("  p_convert_erc20      := %s;\n", path(kf, "convertCoinToEvmBornERC20", false))
-	fmt.Printf("  p_bank_msg_send      := %s |}.\n\n", path(pf, "bankMsgSend", true))
+	fmt.Println("(** each step with: is the error of that ledger operation checked and handed on to the caller (at every level of helper)? *)")
+	fmt.Println("Definition current_paths_e : paths_e := {|")
+	fmt.Printf("  pe_send_to_bank_coin  := %s;\n", path(pf, "sendToBank", true))
+	fmt.Printf("  pe_send_to_bank_erc20 := %s;\n", path(pf, "sendToBank", false))
+	fmt.Printf("  pe_send_to_evm_coin   := %s;\n", path(pf, "sendToEvm", true))
+	fmt.Printf("  pe_send_to_evm_erc20  := %s;\n", path(pf, "sendToEvm", false))
+	fmt.Printf("  pe_convert_coin       := %s;\n", path(kf, "convertCoinToEvmBornCoin", true))
+	fmt.Printf("  pe_convert_erc20      := %s;\n", path(kf, "convertCoinToEvmBornERC20", false))
+	fmt.Printf("  pe_bank_msg_send      := %s |}.\n", path(pf, "bankMsgSend", true))
+	fmt.Println("Definition current_paths : paths := strip current_paths_e.\n")
 	fmt.Println("(** keeper.ERC20().Transfer *)")
 	fmt.Printf("Definition current_transfer_helper : transfer_helper :=\n  %s.\n\n", transferHelper(kf))
 	fmt.Println("(** guards of the two CreateFunToken paths, in source order *)")
